@@ -406,6 +406,14 @@ def stepCW (st : St) (ws : List String) (out : String) : St × String :=
       let (st1, _) := stepC st true ["use"] "?"
       let (st2, _) := stepC st1 true ["advst"] "?"
       (st2, s!"DIS {expect}")
+  | ["checkinfail"] =>
+    -- the store of `advance_counter` fails: `advance()` has already moved the in-memory boundary.
+    -- Store failures are outside C12's quantifier: oracle off from here on (if a store was due).
+    let adv := st.cs.ctr.advance.2
+    let expect := s!"{st.cs.ctr.next} - {if adv.isSome then "err:StdIoError" else "ok"}"
+    let (st1, _) := stepC st true ["use"] (match o with | c :: _ => c | [] => "?")
+    let (st2, _) := stepC st1 true ["adv"] (optS adv)
+    ({ st2 with oon := st2.oon && adv.isNone }, verdict Option.none expect out)
   | ["checkincrash", how, is] =>
     let adv := st.cs.ctr.advance.2
     -- what the harness can see of the store: nothing if the power went before it became durable
